@@ -439,3 +439,23 @@ package transaction
 //@   opaque-callee MayBackoffForRegionError relocate doActionOnMutations GetRegionCache
 //@   loop 1 invariant l1: true
 //@   ensures undetermined: regionErr.UndeterminedResult != nil && (old(handler.committer.useAsyncCommit) > 0 || old(handler.committer.useOnePC) > 0) ==> !retryable && errors.Is(err, tikverr.ErrResultUndetermined)
+
+// ---- C04: the heart-beat goroutine names the primary it was started with: when the primary is withdrawn the manager is
+// stopped, so that the next lock call starts a new one for the new primary -----------------------------------------------
+//@ func (*ttlManager) reset
+//@   prop C04
+//@   may-panic
+//@   ensures stopped: tm.state != stateRunning && (old(tm.state) != stateRunning ==> tm.state == old(tm.state))
+//@ func (*ttlManager) close
+//@   prop C04
+//@   may-panic
+//@   ensures stopped: tm.state != stateRunning && (old(tm.state) != stateRunning ==> tm.state == old(tm.state))
+//@ func (*KVTxn) resetPrimary
+//@   prop C04
+//@   may-panic
+//@   ensures withdrawn: txn.committer.primaryKey == nil && (!keepTTLManager ==> txn.committer.ttlManager.state != stateRunning)
+//@ func (*KVTxn) unsetPrimaryKeyIfNeeded
+//@   prop C04
+//@   bytes: key
+//@   may-panic
+//@   ensures withdrawn: txn.committer == old(txn.committer) && (txn.committer.primaryKey != old(txn.committer.primaryKey) ==> txn.committer.primaryKey == nil && txn.committer.ttlManager.state != stateRunning)
